@@ -334,8 +334,8 @@ func TestCompilerWAT(t *testing.T) {
 	s.Rule("enumeration: compiler-emitted WAT (worker op build) of waroot/examples programs through the same oracle, one program per shard; non-trivial = every such module")
 	sh, n := core.Shard()
 	progs := compilerPrograms
-	if !core.Thorough() && len(progs) > 4 {
-		progs = progs[:4]
+	if !core.Thorough() && len(progs) > 3 {
+		progs = progs[:3]
 	}
 	w := wk.New(wk.Options{})
 	defer w.Close()
